@@ -77,7 +77,8 @@ static evrec_t *evbuf; static volatile long nev; static pthread_mutex_t evmu = P
 static long *rel_count, *done_count, cb_n; static long slot_overrun, slot_overrun_col, nsuper_events, lsub_events, order_inversions;
 static long last_nsuper_of_lsub; static long thread_begin, thread_end, sched_calls, sched_nonempty;
 static long max_qtail; static case_t *cur_case; static int cb_on;
-static __thread unsigned long tl_rng; static __thread int tl_init;
+static __thread unsigned long tl_rng; static __thread int tl_init; static __thread long tl_last_nsuper = -1;
+static long *lsub_start; /* per supernode number: start of its subscript region */
 
 static void maybe_delay(long pnum, int site)
 {
@@ -86,18 +87,44 @@ static void maybe_delay(long pnum, int site)
     if (!tl_init) { tl_rng = (unsigned long) (c->pseed * 7919 + pnum * 104729 + 12345); tl_init = 1; }
     tl_rng = tl_rng * 6364136223846793005UL + 1442695040888963407UL;
     u = (double) ((tl_rng >> 33) & 0xffffff) / (double) 0x1000000;
-    if (u < c->pprob) {
-        long us = (long) ((tl_rng >> 20) % (unsigned long) (c->pmaxus + 1));
+    if (u < c->pprob || (site == 11 /* SLU_VEV_NSUPER: the NewNsuper -> Glu_alloc(LSUB) window */ && u < 0.35)) {
+        long mx = (site == 11 && c->pmaxus < 300) ? 300 : c->pmaxus;
+        long us = (long) ((tl_rng >> 20) % (unsigned long) (mx + 1));
         if (us == 0) sched_yield(); else { struct timespec ts = {0, us * 1000}; nanosleep(&ts, NULL); }
     }
     (void) site;
 }
+
+/* pivot log (trace & 2): one record per p?gstrf_pivotL call */
+typedef struct { long j, usepr, old, diag, ncand, piv, usepr_out; double thresh; long *rows; REAL *vals; } pivrec_t;
+static pivrec_t *pivlog; static long npiv, cappiv;
+static __thread pivrec_t tl_piv;
 
 #ifdef SLU_MT_VERIF
 static void verif_cb(int ev, long pnum, long a, long b, long c, const void *p)
 {
     if (!cb_on) return;
     switch (ev) {
+    case SLU_VEV_PIVOT_IN:
+        if (cur_case && (cur_case->trace & 2)) {
+            const void * const *vrec = (const void * const *) p;
+            const int_t *lsub_ptr = (const int_t *) vrec[0]; const ELT *col = (const ELT *) vrec[1]; const int_t *vn = (const int_t *) vrec[2];
+            long k, nc = vn[1] - vn[0];
+            tl_piv.j = a; tl_piv.usepr = vn[2]; tl_piv.old = vn[3]; tl_piv.diag = vn[4]; tl_piv.ncand = nc;
+            tl_piv.rows = (long *) malloc((nc + 1) * sizeof(long)); tl_piv.vals = (REAL *) malloc((nc + 1) * NCOMP * sizeof(REAL));
+            for (k = 0; k < nc; ++k) { tl_piv.rows[k] = lsub_ptr[vn[0] + k]; memcpy(&tl_piv.vals[k * NCOMP], &col[vn[0] + k], sizeof(ELT)); }
+        }
+        break;
+    case SLU_VEV_PIVOT_OUT:
+        if (cur_case && (cur_case->trace & 2) && tl_piv.rows) {
+            tl_piv.piv = b; tl_piv.usepr_out = c; tl_piv.thresh = p ? (double) *(const REAL *) p : -1.0;
+            pthread_mutex_lock(&evmu);
+            if (npiv == cappiv) { cappiv = cappiv ? 2 * cappiv : 1024; pivlog = (pivrec_t *) realloc(pivlog, cappiv * sizeof(pivrec_t)); }
+            pivlog[npiv++] = tl_piv;
+            pthread_mutex_unlock(&evmu);
+            tl_piv.rows = NULL; tl_piv.vals = NULL;
+        }
+        break;
     case SLU_VEV_RELEASE: if (a >= 0 && a < cb_n) __sync_fetch_and_add(&rel_count[a], 1); break;
     case SLU_VEV_DONE:    if (a >= 0 && a < cb_n) __sync_fetch_and_add(&done_count[a], 1); break;
     case SLU_VEV_THREAD_BEGIN: __sync_fetch_and_add(&thread_begin, 1); break;
@@ -107,15 +134,17 @@ static void verif_cb(int ev, long pnum, long a, long b, long c, const void *p)
         sched_calls++; if (a >= 0) sched_nonempty++;
         if (sh && sh->taskq.tail > max_qtail) max_qtail = sh->taskq.tail;
         break; }
-    case SLU_VEV_NSUPER: __sync_fetch_and_add(&nsuper_events, 1); break;
-    case SLU_VEV_LSUB: __sync_fetch_and_add(&lsub_events, 1); break;
+    case SLU_VEV_NSUPER: __sync_fetch_and_add(&nsuper_events, 1); tl_last_nsuper = b; break;
+    case SLU_VEV_LSUB: __sync_fetch_and_add(&lsub_events, 1);
+        if (tl_last_nsuper >= 0 && tl_last_nsuper <= cb_n) lsub_start[tl_last_nsuper] = b;
+        break;
     case SLU_VEV_ALLOC: {
         const long *q = (const long *) p;   /* {prev_next, limit, fsupc} */
         if (a == LUSUP && q && q[1] >= 0 && q[0] + c > q[1]) { slot_overrun++; slot_overrun_col = b; }
         break; }
     default: break;
     }
-    if (cur_case && cur_case->trace && (ev != SLU_VEV_ALLOC)) {
+    if (cur_case && (cur_case->trace & 1) && (ev != SLU_VEV_ALLOC) && (ev != SLU_VEV_PIVOT_IN) && (ev != SLU_VEV_PIVOT_OUT)) {
         pthread_mutex_lock(&evmu);
         if (nev < MAXEV) { evbuf[nev].ev = ev; evbuf[nev].pnum = pnum; evbuf[nev].a = a; evbuf[nev].b = b; evbuf[nev].c = c; nev++; }
         pthread_mutex_unlock(&evmu);
@@ -129,11 +158,13 @@ static void cb_reset(case_t *c)
 {
     long i;
     cur_case = c; cb_n = c->n;
-    free(rel_count); free(done_count);
+    free(rel_count); free(done_count); free(lsub_start);
     rel_count = (long *) calloc(c->n + 1, sizeof(long)); done_count = (long *) calloc(c->n + 1, sizeof(long));
+    lsub_start = (long *) malloc((c->n + 2) * sizeof(long)); for (i = 0; i <= c->n; ++i) lsub_start[i] = -1;
     if (!evbuf) evbuf = (evrec_t *) malloc(MAXEV * sizeof(evrec_t));
     nev = 0; slot_overrun = 0; slot_overrun_col = -1; nsuper_events = lsub_events = order_inversions = 0;
     thread_begin = thread_end = sched_calls = sched_nonempty = 0; max_qtail = 0; last_nsuper_of_lsub = -1;
+    for (i = 0; i < npiv; ++i) { free(pivlog[i].rows); free(pivlog[i].vals); } npiv = 0;
     tl_init = 0; (void) i;
 #ifdef SLU_MT_VERIF
     slu_mt_verif_cb = verif_cb;
@@ -150,9 +181,26 @@ static void cb_print(case_t *c)
     printf("\"hooks\":0,");
 #endif
     for (i = 0; i < c->n; ++i) if (rel_count[i] != 1) { bad_rel++; if (bad_rel_col < 0) bad_rel_col = i; }
+    order_inversions = 0;
+    { long last = -1; for (i = 0; i <= c->n; ++i) if (lsub_start[i] >= 0) { if (lsub_start[i] < last) order_inversions++; last = lsub_start[i]; } }
+    printf("\"lsub_order_inversions\":%ld,", order_inversions);
     printf("\"release_not_once\":%ld,\"release_bad_col\":%ld,\"thread_begin\":%ld,\"thread_end\":%ld,\"sched_calls\":%ld,\"sched_nonempty\":%ld,\"max_qtail\":%ld,\"slot_overrun\":%ld,\"slot_overrun_col\":%ld,\"nsuper_events\":%ld,\"lsub_events\":%ld,",
            bad_rel, bad_rel_col, thread_begin, thread_end, sched_calls, sched_nonempty, max_qtail, slot_overrun, slot_overrun_col, nsuper_events, lsub_events);
-    if (c->trace) {
+    if (c->trace & 2) {
+        long k;
+        printf("\"pivots\":[");
+        for (i = 0; i < npiv; ++i) {
+            pivrec_t *r = &pivlog[i];
+            printf("%s{\"j\":%ld,\"usepr\":%ld,\"old\":%ld,\"diag\":%ld,\"piv\":%ld,\"usepr_out\":%ld,\"thresh\":\"%a\",\"rows\":[", i ? "," : "",
+                   r->j, r->usepr, r->old, r->diag, r->piv, r->usepr_out, r->thresh);
+            for (k = 0; k < r->ncand; ++k) printf("%s%ld", k ? "," : "", r->rows[k]);
+            printf("],\"vals\":[");
+            for (k = 0; k < r->ncand * NCOMP; ++k) printf("%s\"%a\"", k ? "," : "", (double) r->vals[k]);
+            printf("]}");
+        }
+        printf("],");
+    }
+    if (c->trace & 1) {
         printf("\"events\":[");
         for (i = 0; i < nev; ++i) printf("%s[%d,%ld,%ld,%ld,%ld]", i ? "," : "", evbuf[i].ev, evbuf[i].pnum, evbuf[i].a, evbuf[i].b, evbuf[i].c);
         printf("],");
